@@ -53,12 +53,15 @@ def run(ctx):
     if mc["violated"]:
         raise vlib.Infra("design-level spec violates %s; spec must be repaired (see %s)" % (mc["violated"], mc["outfile"]))
     ctx.add_mc("TimerStore exhaustive", mc)
-    sim = vlib.tlc_sim(ctx, "TimerStore", "TimerStore_sim.cfg", num=ctx.pick(400, 4000), depth=12)
-    behs = sim["behaviours"]
+    behs = []
+    for i, cfg in enumerate(("TimerStore_sim.cfg", "TimerStore_simH.cfg", "TimerStore_simT.cfg")):
+        sim = vlib.tlc_sim(ctx, "TimerStore", cfg, num=ctx.pick(1500, 15000), depth=14, seed=ctx.seed + i,
+                           tag="sim%d" % i)
+        behs += sim["behaviours"]
     ctx.cov["evaluations"] = len(behs)
     nontriv = {vlib.json.dumps(b) for b in behs if any(s["a"] == "tick" for s in b) and any(s["a"] == "add" for s in b)}
     ctx.cov["distinct_nontrivial"] = len(nontriv)
-    ctx.cov["rule"] = ("behaviours = TLC -simulate runs of TimerStore.tla GenNext (10 ops over add/del/has/tick, 2 kinds, "
+    ctx.cov["rule"] = ("behaviours = TLC -simulate runs of TimerStore.tla GenNext (12 ops over add/del/has/tick/reload; both kinds, H only, T only; "
                        "callback programs N/A/X/D); non-trivial = contains at least one add and one tick; distinct by full action list")
     ctx.sample(behs[0])
     ctx.assumptions += ["TLC bounded constants (see specs/TimerStore_mc*.cfg)",
